@@ -131,6 +131,13 @@ impl BufferBuilder {
         Ok(capacity)
     }
 
+    /// Verification hook (compiled only with `--cfg unitedtraders_aeron_rs_verif`): the private growth rule, callable
+    /// with capacities no test could allocate.
+    #[cfg(unitedtraders_aeron_rs_verif)]
+    pub fn find_suitable_capacity_for_verif(current_capacity: Index, required_capacity: Index) -> Result<Index, AeronError> {
+        BufferBuilder::find_suitable_capacity(current_capacity, required_capacity)
+    }
+
     /// This fn resizes (if needed) the buffer keeping all the data in it.
     fn ensure_capacity(&mut self, additional_capacity: Index) -> Result<(), AeronError> {
         let required_capacity = self.limit + additional_capacity;
